@@ -22,3 +22,7 @@ uint32_t verif_nv_used(void) {
 uint64_t verif_nv_maxcount(void) { return NvReadMaxCount(); }
 /* a power cycle starts a new process: library statics that are not re-read from storage start from zero */
 void verif_new_process_statics(void) { s_maxCounter = 0; }
+/* C11: the secrets a saved context is protected with (read only) */
+int verif_get_proof(uint32_t hierarchy, uint8_t *out) { TPM2B_PROOF p; if (HierarchyGetProof(hierarchy, &p) != TPM_RC_SUCCESS) return -1; memcpy(out, p.t.buffer, p.t.size); return p.t.size; }
+uint64_t verif_get_totalResetCount(void) { return gp.totalResetCount; }
+uint32_t verif_get_clearCount(void) { return gr.clearCount; }
